@@ -176,3 +176,53 @@ def rule_load_mem_precheck(u, rep):
             rep.add("LOADMEM-PRECHECK", "load_mem", "load_mem has no path that returns AlignmentError when align_of::<Self>() exceeds the alignment of the heap region, before touching the file", b.loc())
     if not found:
         rep.add("ANCHOR", "load_mem", "cannot locate load_mem")
+
+
+def rule_skeleton_capacity(u, rep, scope_files=("epserde/src/deser/", "epserde/src/impls/"), rule="HEAP-SKELETON"):
+    """eps side (functions working on SliceWithPos): a skeleton vector is reserved for exactly the element count read
+    from the stream (`Vec::with_capacity(len)` with `len` bound to the length prefix). A capacity computed from the
+    remaining input or from element sizes makes the memory requested depend on how long the borrowed sequences are
+    (the vector is then under-reserved and regrown for some inputs and not for others)."""
+    from . import rules_err
+    n = 0
+    for b in u.bodies.values():
+        if b.thir is None or b.d.get("krate") != "epserde" or not rules_err.in_scope(b, scope_files) or b.kind not in ("Fn", "AssocFn"):
+            continue
+        if not rules_err.takes_slice_cursor(b):
+            continue
+        lets = {}
+
+        def find_lets(e):
+            if isinstance(e, dict):
+                if e.get("k") == "Block":
+                    for st in e["b"]["stmts"]:
+                        if st.get("k") != "Expr" and "init" in st and st.get("pat", {}).get("name"):
+                            lets[st["pat"]["name"]] = st["init"]
+                for v in e.values():
+                    find_lets(v)
+            elif isinstance(e, list):
+                for v in e:
+                    find_lets(v)
+        find_lets(b.thir["root"])
+        acc = []
+        rules_err.calls_in(b.crate, b.thir["root"], acc)
+        for (dj, rj, e) in acc:
+            if dj.get("name") not in ("with_capacity", "reserve", "reserve_exact") or dj.get("krate") != "alloc" or not e["args"]:
+                continue
+            a = e["args"][-1]
+            while a.get("k") in ("Use", "NeverToAny") and "e" in a:
+                a = a["e"]
+            n += 1
+            ok = False
+            if a.get("k") == "Var":
+                init = lets.get(a.get("name"))
+                if init is not None:
+                    inner = []
+                    rules_err.calls_in(b.crate, init, inner)
+                    names = [d2.get("name") for d2, _r, _e in inner]
+                    ok = "_deserialize_full_inner" in names and all(x in ("_deserialize_full_inner", "branch", "from_residual", "into", "from") for x in names)
+            rep.oblige(ok)
+            if not ok:
+                rep.add(rule, b.n, "`%s` reserves its skeleton vector for something other than the element count read from the stream: the memory an ε-copy deserialization requests would depend on the input beyond the number of items" % b.n, b.crate.span(e["sp"]))
+    rep.count("eps_skeleton_reservations", n)
+    return n
